@@ -501,19 +501,32 @@ Definition rn_discard_pop (b : buffered) (rest : list buffered) (w : world) : wo
   emit (EvDiscard (b_sys b) (setup_ticket (b_setup b))) (w <| buffer := rest |>).
 
 Definition cb_bump (t : ent) (cb : cbrec) (once_taken : bool) (w : world) : world :=
-  w <| cbs := aupd t (mkCb (cb_once cb) (cb_runno cb + 1) (cb_captured cb + 1) once_taken true) (cbs w) |>.
+  w <| cbs := aupd t (mkCb (cb_once cb) (cb_runno cb) (cb_captured cb) once_taken true) (cbs w) |>.
 (* the taken inner closure of a `once` reactor (and its canary) is dropped when the wrapper returns *)
 Definition once_finish (t : ent) (tk : token) (w : world) : world :=
   match alookup t (cbs w) with
   | Some cb' => emit (EvDropSys t) (w <| cbs := aupd t (mkCb (cb_once cb') (cb_runno cb') (cb_captured cb') true false) (cbs w) |>)
   | None => w end.
+(* ghost assertion on the private state: the values the body is about to log are the ones stored for this system *)
+Definition state_ok_b (t : ent) (runno captured : N) (w : world) : bool :=
+  match alookup t (cbs w) with
+  | Some cb => N.eqb (cb_runno cb) runno && N.eqb (cb_captured cb) captured
+  | None => false end.
+Definition body_guard (t : ent) (runno captured : N) (w : world) : bool := fresh_claim_b t w && state_ok_b t runno captured w.
 (* first statements of every harness body: sample all readers, log the run; an X body bumps its entity's local data *)
-Definition body_begin (sd : sysdecl) (t : ent) (runno captured : N) (w : world) : world :=
+Definition body_sample (sd : sysdecl) (t : ent) (runno captured : N) (w : world) : world :=
   let (sm, w) := sample_readers sd (xsys_of t) w in
-  let w := emit (EvRun t runno captured sm) w in
+  let w := note_run t runno captured (emit (EvRun t runno captured sm) w) in
   match sm_l sm, xsys_of t with
   | Some (src, Some v), Some (x, _) => w <| xlocals := aset2 x src (v + 1) (xlocals w) |>
   | _, _ => w end.
+(* the body increments its Local and the counter captured by its closure: the system's private state *)
+Definition state_bump (t : ent) (w : world) : world :=
+  match alookup t (cbs w) with
+  | Some cb => w <| cbs := aupd t (mkCb (cb_once cb) (cb_runno cb + 1) (cb_captured cb + 1) (cb_taken cb) (cb_live cb)) (cbs w) |>
+  | None => w end.
+Definition body_begin (sd : sysdecl) (t : ent) (runno captured : N) (w : world) : world :=
+  state_bump t (body_sample sd t runno captured w).
 Definition plain_cleanup (cl : cleanup) (w : world) : world := emit (EvCleanup 0) (run_cleanup cl w).
 Definition top_end (i : N) (w : world) : world := emit (EvTop i (take_snapshot all_ids w)) w.
 
@@ -614,8 +627,9 @@ Fixpoint exec (fuel : nat) (i : instr) (w : world) {struct fuel} : result world 
         (* run_initialized_system (callbacks.rs:207-239) around the harness body *)
         (* an undeclared system id gets the default declaration (plain, unit, does not take), as in the harness *)
         let sd := sys_or_default t in
-        (* ghost assertion (Stuck 5): what the readers expose is exactly what this run's own setup claimed *)
-        if negb (fresh_claim_b t w) then Stuck 5 else
+        (* ghost assertions (Stuck 5): what the readers expose is exactly what this run's own setup claimed, and the
+           state values the body logs are the ones stored for this system *)
+        if negb (body_guard t runno captured w) then Stuck 5 else
         let w := body_begin sd t runno captured w in
         match sd_kind sd with
         | Plain =>
